@@ -504,12 +504,15 @@ pub fn run(c: &mut Ctx) {
         match crate::util::mix(idx) % 11 {
             0 => map_exits::<T24, T24>(c, &spec, rng),
             1 => map_exits::<P8, T24>(c, &spec, rng),
+            2 if rng.chance(1, 3) => map_exits::<crate::elem::L600, B1>(c, &spec, rng),
             2 => map_exits::<L200, B1>(c, &spec, rng),
             3 => map_exits::<A64, T24>(c, &spec, rng),
             4 => map_exits::<P8, P8>(c, &spec, rng),
             5 => map_exits::<T24, Z>(c, &spec, rng),
             6 => set_exits::<T24>(c, &spec, rng),
+            7 if rng.chance(1, 3) => set_exits::<crate::elem::L4K>(c, &spec, rng),
             7 => set_exits::<L200>(c, &spec, rng),
+            8 if rng.chance(1, 4) => table_exits::<crate::elem::L600>(c, &spec, rng),
             8 => table_exits::<T24>(c, &spec, rng),
             9 => table_exits::<A64>(c, &spec, rng),
             _ => {
